@@ -421,11 +421,23 @@ impl Engine for Emplace {
                     }
                     let v = match scaled_value(&d, nn) {
                         Some(v) => v,
-                        None => continue,
+                        None => match &d {
+                            // one element more than (or far beyond what) the length type can count
+                            Desc::Vec { elem, len } if (nn as u128) > len.max() && nn <= 300 => match enum_values(elem, elem.size(), &Limits::quick()).first() {
+                                Some(x) => Value::Vec(vec![x.clone(); nn]),
+                                None => continue,
+                            },
+                            _ => continue,
+                        },
                     };
                     let need = match encode(&d, &v, nn * 64 + 4096, 0) {
                         Ok(i) => i.extent,
-                        Err(_) => continue,
+                        // more elements than a one-byte length type can count: no buffer holds this content, every
+                        // emplacer has to refuse it however much room there is (S148)
+                        Err(_) => match &d {
+                            Desc::Vec { elem, .. } if nn <= 300 => refmodel::ceil(d.data_offset() + nn * elem.size().max(1), a.max(1)),
+                            _ => continue,
+                        },
                     };
                     if need + 2 * a + 8 > big_arena.capacity() {
                         big_arena = Arena::new(need + 2 * a + 4096);
